@@ -121,11 +121,13 @@ NestedObs(n, Mlo, Mhi) == Support(n, Mhi) \subseteq Support(n, Mlo)
 (* no node twice, one level per listed node, no listed node belongs to the     *)
 (* core, and every connection that does not survive has a listed endpoint      *)
 (* (a node whose neighbours were all peeled needs no removal of its own)       *)
+(* (listed == the set of listed nodes, evaluated once: large inputs)            *)
 PeelListsEachOnce(n, A, core, order, level) ==
+  LET listed == SeqToSet(order) IN
   /\ Len(level) = Len(order)
   /\ \A x \in DOMAIN order : order[x] \in 1..n
-  /\ \A x, y \in DOMAIN order : x # y => order[x] # order[y]
-  /\ SeqToSet(order) \cap core = {}
+  /\ Cardinality(listed) = Len(order)                    \* no node twice
+  /\ listed \cap core = {}
   /\ \A i, j \in 1..n : (A[i][j] # 0 /\ ~(i \in core /\ j \in core))
-                           => (i \in SeqToSet(order) \/ j \in SeqToSet(order))
+                           => (i \in listed \/ j \in listed)
 =============================================================================
